@@ -542,3 +542,27 @@ fn inst_ne_with_guard() {
     check(off, on, e);
 }
 
+
+/// bare identifiers that are NOT bindings: `None` (a unit variant in scope) is refutable although syn parses it as Pat::Ident
+//@K props=C06,C19 tier=quick label=inst feat=ext fn=matching!(_,None)+matching!(7,None)
+#[kani::proof]
+#[kani::unwind(10)]
+#[kani::stub(alloc::fmt::format, fmt_stub)]
+fn inst_bare_ident_refutable() {
+    let i: (u8, Option<i8>) = (kani::any(), kani::any());
+    let (off, on, mism) = verdicts::<F2>(matching!(_, None), &i);
+    let e = match (&i.0, &i.1) {
+        (_, None) => true,
+        _ => false,
+    };
+    check(off, on, e);
+    check_positions(e, &mism, ((!matches!(i.1, None)) as u8) << 1, [0, 0, 0, 0], 2);
+    let (off2, on2, mism2) = verdicts::<F2>(matching!(7, None), &i);
+    let e2 = match (&i.0, &i.1) {
+        (7, None) => true,
+        _ => false,
+    };
+    check(off2, on2, e2);
+    let rej = (!matches!(i.0, 7) as u8) | ((!matches!(i.1, None) as u8) << 1);
+    check_positions(e2, &mism2, rej, [0, 0, 0, 0], 2);
+}
